@@ -8,6 +8,7 @@ import MgpuProofs.C01TileDesc
 import MgpuProofs.C01BarEx2
 import MgpuProofs.C01LdsFrame
 import MgpuProofs.C01ViewL
+import MgpuProofs.C01ViewL4
 /-! # C01 — an LDS + barrier kernel class: the barrier rounds of `runWG`, and one tile of `matrixTranspose`
 
 Third deepening.  The shipped kernel is `matrixTranspose` of amd/benchmarks/amdappsdk/matrixtranspose/kernels.hsaco
@@ -239,6 +240,33 @@ theorem step_barrier_lds (P : Program) (hP : P.cdna3 = false) (base k : Nat)
     ∃ st', step P base st = .ok (st', .barrier) ∧ SeesL st' { V with pc := base + k + 4 } L :=
   step_barrier_view P hP base k hd st V L h hpc
 
+/-- **step_flat_load16_lds.** `flat_load_dwordx4 v[D:D+3], v[A:A+1]` (the 16-byte load of the shipped kernel) as a
+    view transformer with LDS component: in every active lane the four destination VGPRs receive the little-endian
+    dwords of the 16 memory bytes at the lane's 64-bit address (`loadCells16`); everything else unchanged. -/
+theorem step_flat_load16_lds (P : Program) (hP : P.cdna3 = false) (base k A D : Nat) (hA : A + 1 < 256)
+    (hd : DecV ((P.code.drop k).take 8) 17 23 8) (name : String)
+    (hex : ∀ st, exec false st (((P.code.drop k).take 8).take 8) =
+      some (name, (activeLanes st).flatMap fun l => wrVN D l (16 / 4) (st.memRead (gAddr st A l) 16)))
+    (st : St) (V : View) (L : Nat → Nat) (h : SeesL st V L) (hpc : V.pc = base + k) :
+    ∃ st', step P base st = .ok (st', .next) ∧
+      SeesL st'
+        { V with pc := base + k + 8,
+                 rv := fun r l => if V.exec.testBit l = true then sel (isV (r * 64 + l)) (loadCells16 V A D l) (V.rv r l)
+                                  else V.rv r l } L :=
+  step_flat_load16 P hP base k A D hA hd name hex st V L h hpc
+
+/-- **step_flat_store16_lds.** `flat_store_dwordx4 v[A:A+1], v[S:S+3]` as a view transformer with LDS component: the
+    view's memory changed by the 16 bytes per active lane (`storePairs16`: the four source VGPRs, little-endian, at the
+    lane's 64-bit address with wrap), registers and LDS unchanged. -/
+theorem step_flat_store16_lds (P : Program) (hP : P.cdna3 = false) (base k A S : Nat) (hA : A + 1 < 256) (hS : S + 3 < 256)
+    (hd : DecV ((P.code.drop k).take 8) 17 31 8) (name : String)
+    (hex : ∀ st, exec false st (((P.code.drop k).take 8).take 8) =
+      some (name, (activeLanes st).flatMap fun l => wrMemBytes (gAddr st A l) 16 (st.rvN S l ((16 + 3) / 4))))
+    (st : St) (V : View) (L : Nat → Nat) (h : SeesL st V L) (hpc : V.pc = base + k) :
+    ∃ st', step P base st = .ok (st', .next) ∧
+      SeesL st' { V with pc := base + k + 8, mem := applyWrites (storePairs16 V A S) V.mem } L :=
+  step_flat_store16 P hP base k A S hA hS hd name hex st V L h hpc
+
 /-! ## the shipped code bytes -/
 
 /-- **transposeKernel_lds_insts.** The memory / LDS / barrier skeleton of the shipped code bytes, by evaluating the
@@ -380,6 +408,28 @@ example (base : Nat) (st : St) (V : View) (L : Nat → Nat) (h : SeesL st V L) (
 example (base : Nat) (st : St) (V : View) (L : Nat → Nat) (h : SeesL st V L) (hpc : V.pc = base + 516) :
     ∃ st', step ⟨transposeKernelCode, false⟩ base st = .ok (st', .barrier) ∧ SeesL st' { V with pc := base + 516 + 4 } L :=
   step_barrier_lds ⟨transposeKernelCode, false⟩ rfl base 516 transposeKernel_lds_insts.2.2.1 st V L h hpc
+
+/-- … and by the first 16-byte load (byte 320: `flat_load_dwordx4 v[2:5], v[2:3]`) and the first 16-byte store
+    (byte 608: `flat_store_dwordx4 v[21:22], v[8:11]`) of the shipped code -/
+example (base : Nat) (st : St) (V : View) (L : Nat → Nat) (h : SeesL st V L) (hpc : V.pc = base + 320) :
+    ∃ st', step ⟨transposeKernelCode, false⟩ base st = .ok (st', .next) ∧ ∃ V', SeesL st' V' L ∧ V'.mem = V.mem :=
+  let ⟨st', hs, hv⟩ := step_flat_load16_lds ⟨transposeKernelCode, false⟩ rfl base 320 2 2 (by decide)
+    (transposeKernel_lds_insts.1 320 (by decide)) "load_dwordx4"
+    (fun st => by
+      show exec false st ((ttWin 320).take 8) = _
+      rw [ttw320]
+      exact ttx320 st) st V L h hpc
+  ⟨st', hs, _, hv, rfl⟩
+
+example (base : Nat) (st : St) (V : View) (L : Nat → Nat) (h : SeesL st V L) (hpc : V.pc = base + 608) :
+    ∃ st', step ⟨transposeKernelCode, false⟩ base st = .ok (st', .next) ∧
+      SeesL st' { V with pc := base + 608 + 8, mem := applyWrites (storePairs16 V 21 8) V.mem } L :=
+  step_flat_store16_lds ⟨transposeKernelCode, false⟩ rfl base 608 21 8 (by decide) (by decide)
+    (transposeKernel_lds_insts.2.2.2.2.1 608 (by decide)) "store_dwordx4"
+    (fun st => by
+      show exec false st ((ttWin 608).take 8) = _
+      rw [ttw608]
+      exact ttx608 st) st V L h hpc
 
 end Emu
 end C01
